@@ -1,4 +1,5 @@
 import RLV.Lemmas.RefreshSingle
+import RLV.Lemmas.RefreshMultiMain
 /-! C04 — The terminal shows exactly the buffer, cursor on the right cell (property theorems).
 
 `Disp.refresh` is the model of `display.Engine.Refresh` (internal/display/engine.go, with
@@ -15,8 +16,18 @@ terminal, buffer, cursor position, screen row, and WHATEVER was on the screen be
 redisplay the screen shows the prompt followed by the buffer, wrapped at the width, from the row of
 the prompt on; every cell after the text is blank to the end of the screen (no remnants); the cells
 above the prompt are untouched; and the terminal cursor is on the cell of the buffer's cursor
-position — lines that exactly fill a row included. Multi-line buffers and double-width glyphs are
-decided by the differential and the session oracle only (`…_partial`). -/
+position — lines that exactly fill a row included (`redisplay_shows_exactly_the_buffer_partial`).
+
+Proved as well (`redisplay_shows_exactly_the_lines_partial`): the same for a buffer of TWO LINES OR MORE
+(any number of lines, each of any length, empty ones included), default configuration (no column marks):
+the screen shows `Disp.frameCell` — the prompt and the first line, every other line on rows of its own
+from the indentation of the prompt on, wrapped at the width, the secondary prompt in the indentation of
+the last line when it fits, blanks everywhere else down to the end of the screen — the cells above the
+prompt untouched, and the terminal cursor on the cell of the buffer position (line `k`, offset `o`).
+
+Both are `…_partial` with respect to the property: double-width and combining glyphs, scrolling at the
+bottom of the screen and the column-mark options are decided by the differential and the session
+oracle only. -/
 namespace RLV.Props.C04
 open RLV RLV.Disp RLV.Term
 
@@ -94,6 +105,44 @@ example :
     let t : Term := { w := 6, cell := fun _ _ => 63, x := 3, y := 1, pw := false }
     let t' := t.run (refresh 6 [62, 32] [9492, 32] 1 false [97, 98, 99, 100] 4)
     (t'.cell 0 5 = 100 ∧ t'.cell 1 0 = blank ∧ t'.cell 2 3 = blank) ∧ (t'.x, t'.y, t'.pw) = (0, 1, false) := by
+  decide
+
+/-- C04 (buffers of two lines or more, width-1 glyphs). The buffer is `first`, then the lines `rest`
+(none contains a newline), joined by newlines; the cursor is in line `k` at offset `o`; `r0` is the row
+of the prompt, `prevRow` the row offset the cursor had in the previous frame, `t` ANY screen.
+`spanRows w p 0 lens` is the number of rows taken by lines of the lengths `lens` laid out from the
+indentation `p` (every line but the first starts a new row). -/
+theorem redisplay_shows_exactly_the_lines_partial (w : Nat) (prompt sec first last : List Nat)
+    (rest : List (List Nat)) (k o prevRow r0 : Nat) (t : Term)
+    (hw : t.w = w) (hwf : t.WF) (hy : t.y = r0 + prevRow)
+    (hrest : rest ≠ []) (hfree : ∀ ln ∈ first :: rest, 10 ∉ ln) (hlast : rest.getLast? = some last)
+    (hk : k < (first :: rest).length) (ho : o ≤ ((first :: rest).getD k []).length) (hpr : prompt.length < w) :
+    let t' := t.run (refresh w prompt sec prevRow false (joinNL (first :: rest))
+      (((((first :: rest).take k).map List.length).map (· + 1)).sum + o))
+    (∀ r c, c < w → t'.cell r c =
+        if r * w + c < r0 * w then t.cell r c else frameCell w prompt sec first rest (r * w + c - r0 * w)) ∧
+    t'.x = (o + prompt.length) % w ∧
+    t'.y = r0 + (spanRows w prompt.length 0 (((first :: rest).take k).map List.length) +
+              ((o + prompt.length) / w + (if k ≠ 0 then 1 else 0))) ∧
+    t'.pw = false :=
+  refresh_multi w prompt sec first last rest k o prevRow r0 t hw hwf hy hrest hfree hlast hk ho hpr
+
+/-- every buffer is made of its lines: the two theorems together speak of every buffer of width-1 glyphs -/
+theorem every_buffer_is_lines_joined (l : List Nat) :
+    ∃ ls, ls ≠ [] ∧ (∀ ln ∈ ls, 10 ∉ ln) ∧ joinNL ls = l :=
+  join_splitNL l.length l (Nat.le_refl _)
+
+-- non-vacuity: width 6, prompt "> ", secondary prompt "└ ", buffer "ab\ncdefgh\ni" with the cursor on
+-- the `f` (line 1, offset 3), redisplayed over a screen full of `?` from row 1 (cursor was one row below):
+-- the second line wraps, the last line carries the secondary prompt, the rows below are blank
+example :
+    let t : Term := { w := 6, cell := fun _ _ => 63, x := 3, y := 2, pw := false }
+    let t' := t.run (refresh 6 [62, 32] [9492, 32] 1 false
+      (joinNL [[97, 98], [99, 100, 101, 102, 103, 104], [105]]) (3 + 3))
+    ((List.range 6).map fun r => (List.range 6).map fun c => t'.cell r c) =
+      [[63, 63, 63, 63, 63, 63], [62, 32, 97, 98, 32, 32], [32, 32, 99, 100, 101, 102],
+       [103, 104, 32, 32, 32, 32], [9492, 32, 105, 32, 32, 32], [32, 32, 32, 32, 32, 32]] ∧
+    (t'.x, t'.y, t'.pw) = (5, 2, false) := by
   decide
 
 end RLV.Props.C04
